@@ -154,6 +154,8 @@ class Run(object):
         self.counts = {}
         self.recording = True
         self.dead_tasks = set()
+        self.all_dead = False
+        self.kill_all = False  # the whole process (all tasks) dies at the crash point
 
     # -- helpers ---------------------------------------------------------------------------
     def rel(self, path):
@@ -169,7 +171,7 @@ class Run(object):
     def event(self, kind, op, path, extra=None):
         """Steps 1-5 of the seam protocol for one intercepted call."""
         task = getattr(_tl, "task", 0)
-        if task in self.dead_tasks:
+        if task in self.dead_tasks or self.all_dead:
             # a dead process executes nothing: unwind silently
             raise SimCrash()
         rel = self.rel(path)
@@ -218,6 +220,8 @@ class Run(object):
         self.crashed = True
         self.crash_event = ev
         self.dead_tasks.add(task)
+        if self.kill_all:
+            self.all_dead = True
         if self.crash_snapshot is not None:
             _tl.depth = getattr(_tl, "depth", 0) + 1
             try:
